@@ -25,6 +25,8 @@ enum AnyOh {
     Tz(OpeningHours<TzLocation<chrono_tz::Tz>>, chrono_tz::Tz),
 }
 
+type Recipe = Arc<dyn Fn() -> AnyOh + Send + Sync>;
+
 #[derive(Clone, Copy, Debug)]
 enum Op {
     State,
@@ -92,6 +94,10 @@ fn concurrent(ch: &mut Choices, case: &mut Case) -> Result<(), String> {
     let mut texts = Vec::new();
     let mut pools = Vec::new();
     let mut sun_slots: Vec<usize> = Vec::new();
+    // how to build an equal value from scratch (own parse, own context): the reference answers
+    // come from such values, which share nothing with the values under test
+    let mut recipes: Vec<Recipe> = Vec::new();
+    let mut shared_days: Vec<Option<&'static [(i32, u32, u32)]>> = Vec::new();
     for _ in 0..n_oh {
         let cfg = Cfg { max_rules: 3, base_year: 2020, dense: ch.chance(40), ..Cfg::default() };
         let g = gen_case(ch, &cfg)?;
@@ -100,6 +106,8 @@ fn concurrent(ch: &mut Choices, case: &mut Case) -> Result<(), String> {
             0 => {
                 texts.push(g.text.clone());
                 ohs.push(AnyOh::Plain(g.oh));
+                let (text, holidays) = (g.text.clone(), g.holidays.holidays.clone());
+                recipes.push(Arc::new(move || AnyOh::Plain(OpeningHours::parse(&text).unwrap().with_context(Context::default().with_holidays(holidays.clone())))));
             }
             1 => {
                 // context inferred from coordinates: embedded holidays, country boundaries, zone
@@ -116,16 +124,75 @@ fn concurrent(ch: &mut Choices, case: &mut Case) -> Result<(), String> {
                 };
                 texts.push(format!("{text} [from_coords({lat}, {lon})]"));
                 ohs.push(AnyOh::Tz(oh.with_context(ctx), tz));
+                recipes.push(Arc::new(move || {
+                    let ctx = Context::from_coords(Coordinates::new(lat, lon).unwrap());
+                    let tz = *ctx.locale.get_timezone();
+                    AnyOh::Tz(OpeningHours::parse(&text).unwrap().with_context(ctx), tz)
+                }));
                 case.label("from_coords_context");
             }
             _ => {
                 let country = Country::ALL[ch.draw(Country::ALL.len() as u32) as usize];
                 texts.push(format!("{} [holidays of {country}]", g.text));
                 ohs.push(AnyOh::Plain(g.oh.with_context(Context::default().with_holidays(country.holidays()))));
+                let text = g.text.clone();
+                recipes.push(Arc::new(move || AnyOh::Plain(OpeningHours::parse(&text).unwrap().with_context(Context::default().with_holidays(country.holidays())))));
                 case.label("embedded_holidays_context");
             }
         }
+        shared_days.push(None);
     }
+    // a family: several values derived from one parsed value by `clone().with_context(..)`, so
+    // that they share the expression; they differ by the place only, or by the holidays only
+    if ch.chance(35) {
+        let members = 2 + ch.draw(3) as usize;
+        if ch.chance(60) {
+            const DAYS: &[(i32, u32, u32)] = &[(2024, 6, 20), (2024, 6, 21), (2024, 12, 21)];
+            let text: &'static str = ch.pick(&["sunrise-sunset", "dawn-dusk; Su off", "(sunrise+01:00)-(sunset-01:00) unknown", "sunset-sunrise", "Mo-Fr dawn-12:00,14:00-dusk; PH off"]);
+            let country = if ch.chance(40) { Some(Country::ALL[ch.draw(Country::ALL.len() as u32) as usize]) } else { None };
+            let holidays = move || country.map(Country::holidays).unwrap_or_default();
+            let base = OpeningHours::parse(text).unwrap().with_context(Context::default().with_holidays(holidays()));
+            let mut prev: Option<OpeningHours<TzLocation<chrono_tz::Tz>>> = None;
+            for _ in 0..members {
+                let (lat, lon) = ch.pick(&CITIES);
+                let tz = ch.pick(&[chrono_tz::UTC, chrono_tz::Europe::Paris, chrono_tz::America::New_York, chrono_tz::Asia::Tokyo]);
+                let mk_ctx = move || Context::default().with_holidays(holidays()).with_locale(TzLocation::new(tz).with_coords(Coordinates::new(lat, lon).unwrap()));
+                // derived from the parsed value or, in a chain, from the previous member
+                let derived = match &prev {
+                    Some(p) if ch.chance(50) => p.clone().with_context(mk_ctx()),
+                    _ => base.clone().with_context(mk_ctx()),
+                };
+                prev = Some(derived.clone());
+                sun_slots.push(ohs.len());
+                texts.push(format!("{text} [family member: {tz} at ({lat}, {lon}), holidays of {country:?}]"));
+                ohs.push(AnyOh::Tz(derived, tz));
+                recipes.push(Arc::new(move || AnyOh::Tz(OpeningHours::parse(text).unwrap().with_context(mk_ctx()), tz)));
+                pools.push(pools[0].clone());
+                shared_days.push(Some(DAYS));
+            }
+            case.label("family_same_expression_different_places");
+        } else {
+            const DAYS: &[(i32, u32, u32)] = &[(2024, 12, 25), (2024, 12, 26), (2024, 5, 1), (2024, 7, 4), (2024, 7, 14), (2024, 10, 3), (2024, 1, 1)];
+            let text: &'static str = ch.pick(&["Mo-Su 10:00-18:00; PH off", "PH 10:00-12:00", "PH,SH off; Mo-Fr 09:00-17:00 open \"c\"", "Mo-Fr 08:00-20:00; PH -1 day 08:00-12:00"]);
+            let base = OpeningHours::parse(text).unwrap();
+            let mut prev: Option<OpeningHours> = None;
+            for _ in 0..members {
+                let country = ch.pick(&[Country::FR, Country::US, Country::DE, Country::GB, Country::JP, Country::BR, Country::IE]);
+                let derived = match &prev {
+                    Some(p) if ch.chance(50) => p.clone().with_context(Context::default().with_holidays(country.holidays())),
+                    _ => base.clone().with_context(Context::default().with_holidays(country.holidays())),
+                };
+                prev = Some(derived.clone());
+                texts.push(format!("{text} [family member: holidays of {country}]"));
+                ohs.push(AnyOh::Plain(derived));
+                recipes.push(Arc::new(move || AnyOh::Plain(OpeningHours::parse(text).unwrap().with_context(Context::default().with_holidays(country.holidays())))));
+                pools.push(pools[0].clone());
+                shared_days.push(Some(DAYS));
+            }
+            case.label("family_same_expression_different_holidays");
+        }
+    }
+    let n_oh = ohs.len();
     let n_q = 8 + ch.draw(20) as usize;
     let queries: Vec<Query> = (0..n_q)
         .map(|_| {
@@ -133,7 +200,10 @@ fn concurrent(ch: &mut Choices, case: &mut Case) -> Result<(), String> {
             let op = ch.pick(&[Op::State, Op::NextChange, Op::Schedule, Op::Intervals, Op::State, Op::NextChange, Op::Print, Op::Normalize]);
             // sun-event expressions are probed on a handful of shared days, so that different
             // places are evaluated on the same day by the same thread
-            let date = if sun_slots.contains(&oh) {
+            let date = if let Some(days) = shared_days[oh] {
+                let (y, m, d) = ch.pick(days);
+                NaiveDate::from_ymd_opt(y, m, d).unwrap()
+            } else if sun_slots.contains(&oh) {
                 NaiveDate::from_ymd_opt(2024, 6, 20).unwrap() + Duration::days(ch.int(0, 2))
             } else {
                 pools[oh].draw(ch, true)
@@ -151,7 +221,16 @@ fn concurrent(ch: &mut Choices, case: &mut Case) -> Result<(), String> {
     // same queries in order on this thread, which has a history
     let reference: Vec<String> = queries
         .iter()
-        .map(|q| std::thread::scope(|s| s.spawn(|| answer(&ohs, q)).join().expect("reference thread")))
+        .map(|q| {
+            std::thread::scope(|s| {
+                s.spawn(|| {
+                    let fresh = [recipes[q.oh]()];
+                    answer(&fresh, &Query { oh: 0, ..*q })
+                })
+                .join()
+                .expect("reference thread")
+            })
+        })
         .collect();
     if let Some(i) = reference.iter().position(|r| r.starts_with("PANIC")) {
         return Err(format!("query {:?} on `{}`: {}", queries[i], texts[queries[i].oh], reference[i]));
